@@ -4,7 +4,7 @@ import MoneroModel.Proofs.KeccakLemmas
 import MoneroModel.Proofs.HashScalarSpec
 /-! C17 — "Hashing is Keccak-256 with original padding; hash-to-scalar reduces modulo l".
 What is proved: the reduction `hs`, the padding rule and the block structure of the sponge of the reference (= model)
-function, and a handful of published Keccak-256 test vectors by kernel evaluation (`decide +kernel`, no `native_decide`;
+function, and a handful of published Keccak-256 test vectors by kernel evaluation (`decide +kernel`;
 these are tests of the reference, labelled so). What is NOT provable here: that `tiny-keccak` (which the library wraps) is
 Keccak-f[1600] on all inputs — that part of the property is decided by conformance (Drv/C17 + harness/src/c17.rs). -/
 namespace C17
